@@ -16,6 +16,8 @@ Python holds no oracle: it calls the constructors and projects objects to JSON.
 """
 import os
 import random
+import sys
+import time
 from fractions import Fraction
 
 from .. import tlc
@@ -27,6 +29,7 @@ LEAF_TYPES = {"b": "bool", "c": "bool", "x": "int", "y": "real"}
 NARY = ["And", "Or", "Plus", "Times"]
 BIN = ["Implies", "Iff", "Minus", "Div", "LE", "LT", "GE", "GT", "Equals"]
 WORKERS = 8
+LIMIT = 60  # seconds per history (a history takes milliseconds; the limit only stops a looping mutant)
 
 
 def tla_set(xs):
@@ -237,7 +240,7 @@ def _work(job):
     """Runs in a pool process: one history under a time limit."""
     kind, tid, payload = job
     try:
-        with time_limit(10):
+        with time_limit(LIMIT):
             if kind == "replay":
                 return ("trace", replay(tid, payload))
             return ("trace", random_history(tid, payload[0], payload[1]))
@@ -251,7 +254,12 @@ def _work(job):
 
 def run_jobs(ctx, jobs):
     import multiprocessing as mp
-    import unified_planning.shortcuts  # noqa: F401  (imported before the fork: shared by the pool processes)
+    import unified_planning.shortcuts  # noqa: F401
+    from unified_planning.environment import get_environment
+
+    # everything an Environment() imports lazily (the engines of the Factory) is imported here, before the
+    # fork, so that the pool processes share it and no import can be interrupted by a time limit
+    get_environment()
 
     if not jobs:
         return []
@@ -262,7 +270,7 @@ def run_jobs(ctx, jobs):
         if kind == "trace":
             traces.append(x)
         elif kind == "timeout":
-            ctx.violation("impl-nonterminating", "a construction history does not terminate within 10 s", x)
+            ctx.violation("impl-nonterminating", "a construction history does not terminate within %d s" % LIMIT, x)
         elif kind == "machinery":
             raise MachineryError(x)
         else:
@@ -274,23 +282,29 @@ def run_jobs(ctx, jobs):
 # ----------------------------------------------------------------------------------------
 # TLC runs
 # ----------------------------------------------------------------------------------------
-def enumerate_histories(ctx, label, leaves, lits, ctors, maxar, mode, L, direct):
-    d = ctx.sub("enum-" + label)
+def enumerate_histories(ctx, plans):
+    """One TLC run of ExprManagerEnum over all plans; returns {plan name: [history, ...]}."""
+    d = ctx.sub("enum")
     out = os.path.join(d, "hist.ndjson")
-    cfg = "INIT EInit\nNEXT ENext\n" + consts(leaves, lits, ctors, maxar) + ' L = %d\n Mode = "%s"\n Direct = %s\n' % (
-        L,
-        mode,
-        "TRUE" if direct else "FALSE",
-    )
-    res = tlc.run_tlc("ExprManagerEnum", cfg, d, env={"OUT": out}, workers=1, timeout=3000)
+    pl = os.path.join(d, "plans.ndjson")
+    tlc.write_ndjson(pl, plans)
+    cfg = "INIT EInit\nNEXT ENext\n" + consts(["b"], ["i2"], ["And"], 2)
+    res = tlc.run_tlc("ExprManagerEnum", cfg, d, env={"OUT": out, "PLANS": pl}, workers=1, timeout=3000)
     if res.error:
         raise MachineryError(res.error)
     hist = tlc.read_ndjson(out)
     emitted = [p for p in res.printed if p and p[0] == "EMITTED"]
     if not emitted or emitted[0][1] != len(hist) or not hist:
-        raise MachineryError("enumeration %s: %r histories announced, %d written" % (label, emitted, len(hist)))
-    ctx.cov["tlc_runs"].append({"label": "enum-" + label, "histories": len(hist), "wall_s": round(res.wall, 2)})
-    return [h["ops"] for h in hist]
+        raise MachineryError("enumeration: %r histories announced, %d written" % (emitted, len(hist)))
+    by = {p["name"]: [] for p in plans}
+    for h in hist:
+        by[h["plan"]].append(h["ops"])
+    for name, hs in by.items():
+        if not hs:
+            raise MachineryError("enumeration plan %s is empty" % name)
+        hs.sort(key=lambda ops: repr(ops))  # TLC's set order is deterministic; sorted anyway
+    ctx.cov["tlc_runs"].append({"label": "enum", "histories": {k: len(v) for k, v in by.items()}, "wall_s": round(res.wall, 2)})
+    return by
 
 
 TRACE_CFG = "SPECIFICATION TraceSpec\n" + consts(["b"], ["i2"], ["And"], 2) + "INVARIANT Verdict\n"
@@ -384,45 +398,57 @@ def t1(ctx):
     ctx.notes["as_written_counterexample"] = [s["vars"] for s in res.trace]
 
 
+def _dbg(ctx, what):
+    if os.environ.get("C16_DEBUG"):
+        sys.stderr.write("[C16 %6.1fs] %s\n" % (time.time() - ctx.t0, what))
+
+
 def run(ctx):
     q = ctx.quick
     stats = {"calls": 0, "raised": 0, "nontrivial": 0, "ctors": set(), "dead": set(), "failed": set()}
     t1(ctx)
+    _dbg(ctx, "T1 done")
     # ---- T2: TLC-enumerated histories replayed on fresh environments -----------------------
-    plans = []
-    # every call of the whole alphabet with direct fluent/literal arguments, made twice, then re-spelt
-    plans.append(("respell", dict(leaves=["b", "x"], lits=["i2", "f2.0", "s2", "q4/2", "q1/2", "f0.5"], ctors=ALL_CTORS, maxar=2, mode="respell", L=0, direct=True)))
-    # every history of length L (arguments = earlier results) over two class-representative alphabets
+    def plan(name, mode, L, ctors, leaves, lits, maxar=2, direct=False):
+        return dict(name=name, mode=mode, L=L, ctors=ctors, leaves=leaves, lits=lits, maxar=maxar, direct=direct)
+
     A1 = ["And", "Not", "Implies", "Plus", "Minus", "LE", "GE", "Equals", "FluentExp"]
-    A2 = ["Or", "Not", "Iff", "Times", "Div", "LT", "GT", "Equals", "FluentExp", "TRUE", "FALSE"]
+    A2 = ["Or", "Not", "Iff", "Times", "Div", "LT", "GT", "Equals", "FluentExp"]
     if q:
-        plans.append(("seq3-A1", dict(leaves=["b", "x"], lits=["f2.0", "q1/2"], ctors=A1, maxar=2, mode="seq", L=3, direct=False)))
-        plans.append(("seq3-A2", dict(leaves=["b", "x"], lits=["s2", "q4/2"], ctors=A2, maxar=2, mode="seq", L=3, direct=False)))
+        plans = [
+            # every call of the whole alphabet with direct fluent/literal arguments, made twice, then re-spelt
+            plan("respell", "respell", 0, ALL_CTORS, ["b", "x"], ["i2", "f2.0", "q4/2", "q1/2"], direct=True),
+            # every history of 3 calls (arguments = earlier results) over two class-representative alphabets
+            plan("seq3-A1", "seq", 3, A1, ["b", "x"], ["f2.0", "q1/2"]),
+            plan("seq3-A2", "seq", 3, A2, ["b", "x"], ["s2", "q4/2"]),
+        ]
     else:
-        plans.append(("seq3-all", dict(leaves=["b", "c", "x"], lits=["i2", "f2.0", "q1/2"], ctors=ALL_CTORS, maxar=3, mode="seq", L=3, direct=False)))
-        plans.append(("seq4-A1", dict(leaves=["b", "x"], lits=["f2.0"], ctors=["And", "Not", "Plus", "GE", "Equals", "FluentExp"], maxar=2, mode="seq", L=4, direct=False)))
-        plans.append(("seq4-A2", dict(leaves=["b", "x"], lits=["q1/2"], ctors=["Or", "Not", "Iff", "Times", "GT", "LT", "FluentExp"], maxar=2, mode="seq", L=4, direct=False)))
-        plans.append(("seq2-direct", dict(leaves=["b", "x"], lits=["i2", "f2.0", "q1/2"], ctors=["And", "Or", "Not", "Iff", "Plus", "Times", "Div", "LE", "GE", "GT", "Equals"], maxar=2, mode="seq", L=2, direct=True)))
+        plans = [
+            plan("respell", "respell", 0, ALL_CTORS, ["b", "c", "x"], ["i2", "f2.0", "s2", "q4/2", "q1/2", "f0.5", "i0"], direct=True),
+            plan("seq3-all", "seq", 3, ALL_CTORS, ["b", "c", "x"], ["i2", "f2.0", "q1/2"], maxar=3),
+            plan("seq4-A1", "seq", 4, ["And", "Not", "Plus", "GE", "Equals", "FluentExp"], ["b", "x"], ["f2.0"]),
+            plan("seq4-A2", "seq", 4, ["Or", "Not", "Iff", "Times", "GT", "LT", "FluentExp"], ["b", "x"], ["q1/2"]),
+            plan("seq2-direct", "seq", 2, ["And", "Or", "Not", "Iff", "Plus", "Times", "Div", "LE", "GE", "GT", "Equals"], ["b", "x"], ["i2", "f2.0", "q1/2"], direct=True),
+        ]
+    by = enumerate_histories(ctx, plans)
+    _dbg(ctx, "enumerated %r" % {k: len(v) for k, v in by.items()})
+    jobs = []
     tid = 0
-    nenum = 0
-    for label, p in plans:
-        hist = enumerate_histories(ctx, label, **p)
-        jobs = []
-        for h in hist:
+    for pl in plans:
+        for h in by[pl["name"]]:
             tid += 1
             jobs.append(("replay", tid, h))
-        traces = run_jobs(ctx, jobs)
-        nenum += len(traces)
-        account(traces, stats)
-        ctx.sample({"kind": "enumerated history (%s)" % label, "trace": traces[len(traces) // 2]})
-        judge(ctx, label, traces, stats)
+    nenum = len(jobs)
     # ---- T3: seeded long random histories over the whole alphabet ----------------------------
-    nr = 1500 if q else 30000
-    jobs = [("random", 10000000 + i, (ctx.rng.getrandbits(48), ctx.rng.randint(8, 40))) for i in range(nr)]
-    rtr = run_jobs(ctx, jobs)
-    account(rtr, stats)
-    ctx.sample({"kind": "random history", "trace": {"id": rtr[0]["id"], "ops": rtr[0]["ops"][:8]}})
-    judge(ctx, "random", rtr, stats)
+    nr = 600 if q else 30000
+    jobs += [("random", 10000000 + i, (ctx.rng.getrandbits(48), ctx.rng.randint(8, 40))) for i in range(nr)]
+    traces = run_jobs(ctx, jobs)
+    _dbg(ctx, "replayed %d histories" % len(traces))
+    account(traces, stats)
+    ctx.sample({"kind": "enumerated history", "trace": traces[nenum // 2]})
+    ctx.sample({"kind": "random history (first 8 calls)", "trace": {"id": traces[-1]["id"], "ops": traces[-1]["ops"][:8]}})
+    judge(ctx, "all", traces, stats)
+    _dbg(ctx, "judged")
     # ---- evidence ---------------------------------------------------------------------------
     missing = set(ALL_CTORS) - stats["ctors"]
     if missing:
@@ -439,7 +465,7 @@ def run(ctx):
         "repetitions. evaluations = constructor calls bound to the implementation; a history is non-trivial when it repeats "
         "a call verbatim or contains a rejected call; unspecified = histories not judged to the end (a later call uses the "
         "result of a call the specification rejects, or a Div with a fluent-free non-constant/zero divisor) without any failure."
-        % (", ".join(l for l, _ in plans), nenum, nr)
+        % (", ".join("%s=%d" % (p["name"], len(by[p["name"]])) for p in plans), nenum, nr)
     )
     ctx.cov["exhaustive"] = True
     ctx.assumptions += [
